@@ -89,14 +89,15 @@ def attempt_spec(run):
     return spec, close_args
 
 
-def _several_replies_owed(run):
+def _several_replies_owed(run, keepalive=False):
     """The server closes its socket right behind a close frame that shares its instant with two or more pings: the second
     pong already meets the reset, and a client that reports the lost connection instead of the close frame it has not read
     yet is not wrong. Such a server is modelled as half-closing (the statement is about runs the close frame ends)."""
     end = run["ending"]
     if not end.get("drop") or end.get("gap", 1.0) != 0.0 or not run.get("traffic"):
         return False
-    return sum(1 for f in run["traffic"][-1][1] if f.get("op") == rm.PING) >= 2
+    # (a keepalive ping of the client's own may fall on the same instant: it counts as one more write)
+    return sum(1 for f in run["traffic"][-1][1] if f.get("op") == rm.PING) + (1 if keepalive else 0) >= 2
 
 
 def run_case(case):
@@ -114,7 +115,7 @@ def run_case(case):
         if r.get("lost_first"):
             # reconnect interval set: a first connection is lost (end of stream) before the one that ends the run
             attempts.append({"timeline": [[0.3, ["data", simpeers.frame_bytes([{"op": rm.TEXT, "p": b"first"}])]], [r["lost_first"], ["eof"]]], "default_pong": 0.01})
-        if r.get("full_close") and isinstance(a, dict) and not _several_replies_owed(r):
+        if r.get("full_close") and isinstance(a, dict) and not _several_replies_owed(r, bool(case.get("ping") or r.get("ping"))):
             a["full_close"] = True  # the server's end of stream is a close() of its socket: later client writes meet a reset
         attempts.append(a)
         expect.append(ca)
